@@ -10,6 +10,9 @@ VERIF = os.path.dirname(os.path.dirname(os.path.abspath(__file__)))
 
 def main():
     props = sys.argv[1].split(",")
+    quiet = props == ["ALL"]
+    if quiet:
+        props = ["C01", "C02", "C03", "C04", "C05", "C06", "C08", "C09", "C10", "C11", "C12", "C13", "C14", "C15", "C16", "C17", "C18", "C19", "C20"]
     os.makedirs("/root/scratch", exist_ok=True)
     d = tempfile.mkdtemp(prefix="mut.", dir="/root/scratch")
     try:
@@ -37,6 +40,8 @@ def main():
         for pr in props:
             r = subprocess.run([os.path.join(VERIF, "check"), pr], env=env, capture_output=True, text=True)
             rc_all[pr] = r.returncode
+            if quiet and r.returncode == 0:
+                continue
             print("=== %s rc=%d" % (pr, r.returncode))
             print(r.stdout[-3000:])
             if r.stderr.strip():
